@@ -80,7 +80,7 @@ def main():
          "engines": [{"name": "tlc-trace", "path": "drivers/core.py", "serves_properties": sorted(CLAIMED),
                       "kind_free_text": "TLC 1.8 model checking of spec/MC_*.tla and trace validation of ndjson recordings (spec/Trace_*.tla); Rust recorder harness/hx"}],
          "checks": checks, "not_applicable": na,
-         "notes": "see DESIGN.md (section 0 is the status); known findings in known_findings.json: 24 entries fixed by fix: commits in /repo, one open (F1, C17: quit delayed behind a >1024-byte input burst; the check prints a KNOWN-FINDING line for it)"}
+         "notes": "see DESIGN.md (section 0 is the status); known findings in known_findings.json: 24 entries fixed by fix: commits in /repo, two open (C17: F1 quit delayed behind a >1024-byte input burst, F2 panic on a terminal of more than 65 535 cells; the check prints a KNOWN-FINDING line for each)"}
     json.dump(m, open(os.path.join(V, "MANIFEST.json"), "w"), indent=1)
 if __name__ == "__main__":
     main()
